@@ -273,7 +273,7 @@ def tuplekey(v: int, w: int, a: int, b: int, s1: int, s2: int, two: bool) -> boo
         elif sp == 2:
             r = call(c, key=k)
         elif sp == 3:
-            inside = call(c.__contains__, k)
+            inside = call(c.__contains__, (k, 0) if two else k)       # Mapping view: keys are the FULL argument tuples (defaults filled in)
             if not check(inside[0] == "ok" and inside[1] == (i == 1), "`k in c` tells whether the element holds a value", lambda: inside):
                 return False
             r = call(c.__getitem__, k)
